@@ -80,7 +80,9 @@ func VerifH_C13_InspectVsScanV1() {
 	vAssume(n >= 0 && n <= N)
 	zl := vBool("zeroLen")
 	file := vCat(hdr, in[:n])
-	opts := []Option{ZeroLengthSectionAsEOF(zl), MaxAllowedSectionSize(uint64(N))}
+	// the limit is one below the input size, so that a section exactly at the limit (and one just
+	// above it) fits into the input
+	opts := []Option{ZeroLengthSectionAsEOF(zl), MaxAllowedSectionSize(uint64(N - 1))}
 
 	scan, _ := vScanAll(&vStream{data: file}, N, opts...)
 	rd, err := NewReader(&vReaderAt{data: file}, opts...)
@@ -146,7 +148,7 @@ func VerifH_C13_InspectVsScanV2() {
 		idxOff = uint64(51 + pad + len(payload))
 	}
 	file := vWrapV2(payload, pad, idxOff, idx)
-	opts := []Option{MaxAllowedSectionSize(uint64(N))}
+	opts := []Option{MaxAllowedSectionSize(uint64(N - 1))}
 	scan, _ := vScanAll(&vStream{data: file}, N, opts...)
 	rd, err := NewReader(&vReaderAt{data: file}, opts...)
 	vAssert("reader-opens", err == nil)
